@@ -61,7 +61,15 @@ def strat_history(draw, tier):
                                     st.sampled_from([-1, -2, -100, span])))
         elif kind == "write":
             n = draw(st.one_of(st.integers(0, 12), st.integers(0, span)))
-            if draw(st.integers(0, 2)) == 0:
+            if size >= 4096 and draw(st.integers(0, 2)) == 0:
+                # a long run of one byte value at a word-aligned place
+                # (buffers are cleared or padded this way)
+                s["data"] = b64(bytes([draw(st.sampled_from(
+                    [0, 0xff, 1, 0xa5, draw(st.integers(0, 255))]))]) *
+                    draw(st.sampled_from([1024, 1028, 2048, 4096])))
+                steps.append({"op": "seek", "view": s["view"], "whence": 0,
+                              "n": draw(st.sampled_from([0, 4, 8]))})
+            elif draw(st.integers(0, 2)) == 0:
                 s["data"] = draw(st.sampled_from(pool))
                 # ... preceded by a seek to one of two places
                 steps.append({"op": "seek", "view": s["view"], "whence": 0,
